@@ -203,7 +203,7 @@ Theorem C07_range_span : forall lo hi vrs,
   in_int64 lo = true -> in_int64 hi = true -> lo <= hi -> split_range lo hi 4 = Some vrs ->
   exists init last, vrs = init ++ [last] /\
     Forall (fun v => vr_count v <= 15) init /\ vr_count last <= 30 /\
-    sum_count vrs <= 466 /\ (length vrs <= 31)%nat.
+    sum_count vrs <= 464 /\ (length vrs <= 31)%nat.
 Proof. exact range_span. Qed.
 Print Assumptions C07_range_span.
 
@@ -222,7 +222,7 @@ Print Assumptions C07_enum7_spec.
 
 Theorem C07_range_candidates_total : forall lo hi,
   in_int64 lo = true -> in_int64 hi = true ->
-  exists cands, range_candidates lo hi 4 = Some cands /\ (length cands <= 466)%nat.
+  exists cands, range_candidates lo hi 4 = Some cands /\ (length cands <= 464)%nat.
 Proof. exact range_candidates_total. Qed.
 Print Assumptions C07_range_candidates_total.
 
